@@ -507,6 +507,7 @@ def c08(ctx):
 def c02(ctx):
     prog = ctx.prog("dev")
     RSG.rule_r24_selection(ctx, prog)
+    RSG.rule_r25_bulk_selection(ctx, prog)
     RSG.rule_r22_partition(ctx, prog)
     RZ.rule_r18_partition(ctx, prog)
     # permutation: only swaps move data in the selection family
